@@ -61,6 +61,8 @@ func allRouteSpecs() []string {
 func allMuxRequests() []Req {
 	var rs []Req
 	rs = append(rs, Req{Kind: "bind", ID: 3, DN: "cn=a", Pass: "p"})
+	// (anonymous and unauthenticated binds are simple binds like any other: the bind route serves them)
+	rs = append(rs, Req{Kind: "bind", ID: 3, DN: "", Pass: ""}, Req{Kind: "bind", ID: 3, DN: "cn=a", Pass: ""}, Req{Kind: "bind", ID: 3, DN: "", Pass: "p"})
 	for _, b := range muxBases {
 		for _, f := range muxFilters[1:] {
 			for sc := int64(0); sc <= 2; sc++ {
